@@ -69,7 +69,9 @@ func printSequenceDiagramStatements(m *sysl.Module, statements []*sysl.Statement
 				previous := appName
 				out, err := generateSequenceDiagramHelper(m, nextapp, nextep, previous, indent, sequencePairs, false)
 				if err != nil {
-					panic("Error in generating sequence diagram; check if app names or endpoints are correct")
+					// the call names an application or endpoint the model does not define: the call is
+					// shown, there is nothing behind it to expand
+					continue
 				}
 				result += out
 			}
